@@ -68,15 +68,12 @@ def stepC15 (st : St) (ws : List String) : St × Resp :=
         match h? with
         | none => (st, { model := "PANIC" })
         | some h =>
-          -- a 1-mer: the answer depends on the build profile (`hashKmer` vs `hashKmerChecked`):
-          -- the model column is silent, the specification decides
-          let silent := op == "kmer" && x.length == 1
           let (g', r) := g.count h
           let (f', rs) := match hs with
             | some h' => specInsert f h'
             | none => ({ f with ok := false }, false)
           ({ g := st.g.set! i g', s := st.s.set! i f' },
-           { model := if silent then "-" else s!"{b01 r} {counters g'}",
+           { model := s!"{b01 r} {counters g'}",
              spec := if f'.ok then s!"{b01 rs} {sCounters f'}" else "-" })
       else if op == "get" || op == "getk" then
         let h? : Option Nat := if op == "get" then some x.toNat! else NG.hashKmer (kmerCodes x)
@@ -84,8 +81,7 @@ def stepC15 (st : St) (ws : List String) : St × Resp :=
           (if (kmerCodes x).all Bloom.isACGT && x.length ≥ 1 && x.length ≤ 32 then some (Bloom.canonical (kmerCodes x)) else none)
         match h?, hs with
         | some h, some h' =>
-          let silent := op == "getk" && x.length == 1
-          (st, { model := if silent then "-" else toString (g.get h),
+          (st, { model := toString (g.get h),
                  spec := if f.ok then toString (f.r.get h') else "-" })
         | some h, none => (st, { model := toString (g.get h) })
         | none, _ => (st, { model := "PANIC" })
